@@ -60,10 +60,7 @@ stub_dirty_cb(struct chan *chan, void *arg)
 #define BCB sizeof(struct bay_cb)
 #define HEAD(cb) ((cb)->bchan->cb[(cb)->type])
 /* utlist DL list: head->prev is the tail, tail->next is NULL.
- * LIST_WITHOUT(cb): the callback list of cb's channel and phase, cb not on it: empty, or a head with
- * its tail (head itself or another node). Only these cells are touched by DL_APPEND. */
-#define LIST_WITHOUT(cb) (HEAD(cb) == NULL || HEAD(cb)->prev->next == NULL)
-/* LIST_WITH(cb): cb is on the list, at any position of a list of any length: the cells DL_DELETE
+ * LIST_WITH(cb): cb is on the list, at any position of a list of any length: the cells DL_DELETE
  * touches are the head, cb's neighbours and (when cb is the tail) head->prev. */
 #define LIST_WITH(cb) ( \
 	(__CPROVER_pointer_equals(HEAD(cb), cb) || __CPROVER_is_fresh(HEAD(cb), BCB)) && \
@@ -77,19 +74,19 @@ stub_dirty_cb(struct chan *chan, void *arg)
 		((cb)->next != NULL || __CPROVER_pointer_equals(HEAD(cb)->prev, cb)))) && \
 	((cb)->next == NULL || __CPROVER_pointer_equals((cb)->next->prev, cb)))
 
-struct bay_cb *g_head, *g_prev, *g_next, *g_tail;
-int g_was_enabled, g_ncb;
+struct bay_cb *g_head, *g_prev, *g_next;
+int g_was_enabled;
 int w_enabled, w_type, w_bdirty, w_is_head, w_has_next, w_single, w_empty;
-WITNESS(bay_enable_cb);
 WITNESS(bay_disable_cb);
 
 /* TOOL LIMIT: CBMC 6.11 crashes (SIGSEGV in simplify_expr_with_value_sett::simplify_inequality) on DFCC's
  * write-set check of `bchan->cb[cb->type]->prev->next = cb` (DL_APPEND on a non-empty list: symbolic
  * array index under a two-level dereference).  bay_enable_cb therefore cannot be ENFORCED with DFCC.
- * Its contract is written once as predicates (ENABLE_PRE / ENABLE_POST / frame) and
- *  - proved against the real bay_enable_cb by a plain CBMC harness (groups bay_enable_cb_*: "no_dfcc":
- *    precondition assumed, postcondition and frame asserted on snapshots), both phases, list of any length;
- *  - used as the DFCC contract cr_bay_enable_cb that REPLACES the call inside cb_select. */
+ * (A DFCC contract that REPLACES the call crashes the tool in the same way when the callback pointer is
+ * one of several objects.)  Its contract is written as predicates (ENABLE_PRE / ENABLE_POST / frame) and
+ * proved against the real bay_enable_cb by a plain CBMC harness (groups bay_enable_cb_*: "no_dfcc":
+ * precondition assumed, postcondition and frame asserted on snapshots), both phases, list of any length.
+ * cb_select, which calls it, is checked the same way with the real bay_enable_cb inlined. */
 #define HEADT(cb, t) ((cb)->bchan->cb[t])
 #define ENABLE_PRE(cb, t) ((cb)->type == (t) && \
 	((cb)->enabled != 0 || HEADT(cb, t) == NULL || HEADT(cb, t)->prev->next == NULL) && \
@@ -105,16 +102,6 @@ WITNESS(bay_disable_cb);
 		(cb)->next == NULL && HEADT(cb, t)->prev == (cb) && (cb)->bchan->ncallbacks[t] == (o_ncb) + 1 && \
 		((o_head) != NULL || (HEADT(cb, t) == (cb) && (cb)->prev == (cb))) && \
 		((o_head) == NULL || (HEADT(cb, t) == (o_head) && (cb)->prev == (o_tail) && (cb)->prev->next == (cb))))))
-
-/* DFCC form, phase DIRTY (the phase of every mux callback): used for replacement in cb_select */
-void cr_bay_enable_cb(struct bay_cb *cb)
-__CPROVER_requires(ENABLE_PRE(cb, BAY_CB_DIRTY))
-__CPROVER_assigns(cb->enabled, cb->next, cb->prev, cb->bchan->cb[BAY_CB_DIRTY], cb->bchan->ncallbacks[BAY_CB_DIRTY])
-__CPROVER_assigns(cb->enabled == 0 && HEADT(cb, BAY_CB_DIRTY) != NULL: HEADT(cb, BAY_CB_DIRTY)->prev, HEADT(cb, BAY_CB_DIRTY)->prev->next)
-__CPROVER_ensures(ENABLE_POST(cb, BAY_CB_DIRTY, __CPROVER_old(cb->enabled), __CPROVER_old(cb->bchan->cb[BAY_CB_DIRTY]),
-	__CPROVER_old(cb->bchan->cb[BAY_CB_DIRTY]->prev), __CPROVER_old(cb->next), __CPROVER_old(cb->prev),
-	__CPROVER_old(cb->bchan->ncallbacks[BAY_CB_DIRTY])))
-;
 
 #ifdef H_BAY_ENABLE_CB
 /* plain proof of the same predicates against the real function */
